@@ -3,12 +3,13 @@ from mc import engine, spaces, searchcore as sc
 
 ID = 'C02'
 LEVEL = 'exploration'
-INCLUDE = spaces.C02_SIX + ['n_geos_max', 'n_pretest_max', 'iroas']
+INCLUDE = spaces.C02_SIX + ['n_geos_max', 'n_pretest_max', 'iroas', 'rho_max']
 RULE = ('Engine A: same FULL/DEV spaces as C01 (every subset of the six constraints occurs in FULL; DEV adds the whole '
         'value alphabets incl. sizes 1,2,G,G+1 and tolerances 0.5,1,2 so that designs sit exactly on size/ratio '
         'bounds). Oracle recomputes from raw data: sizes and geo ratio in exact rational arithmetic, volume ratio, '
         'share under either documented reading, budget = closed-form required impact / iroas. Completeness '
-        'sub-check (inclusiveness of bounds): with no budget range and n_designs >= |feasible set| the exhaustive '
+        'THRESH: budget / share / volume bounds placed between every two consecutive critical values of the panel '
+        '(all subset optimistic impacts and design impacts, also / iroas, rho_max 0.9). Completeness sub-check (inclusiveness of bounds): with no budget range and n_designs >= |feasible set| the exhaustive '
         'result must contain every reference-feasible design. Non-trivial = a constraint is specified and at least '
         'one legal design of the reference space violates it; distinct = distinct case.')
 ASSUMPTIONS = ['values: fixed integer panels; continuous bounds judged with 1e-9 relative slack, integer bounds exactly',
@@ -16,7 +17,13 @@ ASSUMPTIONS = ['values: fixed integer panels; continuous bounds judged with 1e-9
 
 
 def cases(tier, seed):
-    return spaces.family_space(tier, seed, INCLUDE, {'n_designs': 100}, k_values=())
+    out = spaces.family_space(tier, seed, INCLUDE, {'n_designs': 100}, k_values=())
+    # bounds between every two consecutive critical values (budget incl. iroas / rho_max variants, share, volume)
+    out += spaces.threshold_space({'name': 'B', 'G': 4, 'T': 12}, base_kw={'n_designs': 100},
+                                  rho_values=(0.995, 0.9) if tier == 'thorough' else (0.9,))
+    if tier == 'thorough':
+        out += spaces.threshold_space({'name': 'A', 'G': 3, 'T': 12}, base_kw={'n_designs': 100}, rho_values=(0.995, 0.9))
+    return out
 
 
 def run_case(case):
